@@ -495,7 +495,8 @@ def _geometry_counters(acc, prefix, frame, seg, labels, info):
     split = set(info['deblended'])
     order = sorted(_requested(seg, None)) if labels is None else [int(x) for x in np.atleast_1d(labels)]
     pos = {l: i for i, l in enumerate(order)}
-    if any(a in split and b in split and pos[a] < pos[b] for (b, a) in rel['box_contains']):
+    # (a parent that was split although it was not requested has no place in the processing order: the oracle reports it)
+    if any(a in split and b in split and a in pos and b in pos and pos[a] < pos[b] for (b, a) in rel['box_contains']):
         acc.counters[prefix + '_later_split_parent_box_contains_pixels_of_earlier_split_parent'] += 1
     if any(a in split or b in split for (a, b) in rel['adjacent']):
         acc.counters[prefix + '_split_parent_shares_a_border_with_another_segment'] += 1
